@@ -28,6 +28,7 @@ def main():
     ap.add_argument("--props", default=",".join(ALL))
     ap.add_argument("--confirm", action="store_true")
     ap.add_argument("--json", action="store_true")
+    ap.add_argument("--tests", action="store_true", help="run the test-suite with the patch (no demo needed)")
     a = ap.parse_args()
     d = os.path.abspath(a.dir)
     patch = os.path.join(d, "patch.diff")
@@ -49,6 +50,7 @@ def main():
         if a.confirm:
             rc, out = sh(["/venv/bin/python", demo], wt, env)
             res["demo_patched"] = rc
+        if a.confirm or a.tests:
             rc, out = sh(["/venv/bin/python", "-m", "pytest", "-q", "-p", "no:cacheprovider", "-x"], wt, env)
             res["tests"] = out.strip().splitlines()[-1] if out.strip() else ""
             res["tests_rc"] = rc
